@@ -24,7 +24,10 @@
    unit/stream graph given as an edge list.
 
    Part 2: certificate checker for complete Network.from_units results (nested path with
-   recycles), see [check]. *)
+   recycles), see [check].
+   Part 3: order in which from_feedstock joins the recycle loops.
+   Part 4: Network.sort on nested paths (items = units and sub-networks).
+   Part 5: the path surgery (_remove_overlap ... _insert_recycle_network) on trees that keep `units`. *)
 From V Require Export Common.Num.
 Local Open Scope nat_scope.
 
